@@ -4,6 +4,8 @@
 //	at <ns> | adv <ns>            -> ok
 //	start <id>                    -> pass <state> | fallback <state>   (pass: the request is now blocked inside the protected handler)
 //	finish <id> <code> [q=v,v,…]  -> done <code> <state>               (the protected handler answers <code>; latency = clock advance since start)
+//	burst <n> <step_ns>           -> burst <run-length outcomes, e.g. f3p1f2> <state>   (n arrivals, the clock advancing step_ns after each;
+//	                                 passed requests stay in flight until the scenario ends)
 //	state                         -> standby | tripped until=<ns> | recovering until=<ns>   (parsed from CircuitBreaker.String())
 //	effects                       -> effects tripped=<n> standby=<n>   (executions of the registered OnTripped / OnStandby side effects)
 //
@@ -53,6 +55,7 @@ type h struct {
 	shadow    *memmetrics.RTMetrics
 	quantiles []float64
 	prevState string
+	nBurst    int
 }
 
 var stateRe = regexp.MustCompile(`^CircuitBreaker\(state=([a-z]+)(?:, until=(.*))?\)$`)
@@ -161,6 +164,48 @@ func (s *h) op(f []string, line *string) string {
 		q := s.quiesce()
 		s.prevState = s.state()
 		return res + " " + s.prevState + q
+	case f[0] == "burst" && len(f) == 3:
+		n, step := hx.Atoi(f[1]), hx.Atoi64(f[2])
+		var sb strings.Builder
+		last, run := byte(0), 0
+		flush := func() {
+			if run > 0 {
+				fmt.Fprintf(&sb, "%c%d", last, run)
+			}
+		}
+		for i := 0; i < n; i++ {
+			s.nBurst++
+			id := fmt.Sprintf("~%d", s.nBurst)
+			fl := &flight{entered: make(chan struct{}, 1), release: make(chan int, 1), done: make(chan struct{}),
+				rec: httptest.NewRecorder(), start: clock.Now().UTC()}
+			s.flights[id] = fl
+			req := httptest.NewRequest(http.MethodGet, "http://backend/", nil)
+			req.Header.Set("X-Id", id)
+			go func() {
+				defer close(fl.done)
+				s.cb.ServeHTTP(fl.rec, req)
+			}()
+			c := byte('p')
+			select {
+			case <-fl.entered:
+			case <-fl.done:
+				delete(s.flights, id)
+				c = 'f'
+				if !(fl.rec.Header().Get("X-Fb") == "1" && fl.rec.Code == http.StatusServiceUnavailable) {
+					c = 'x'
+				}
+			}
+			if c != last {
+				flush()
+				last, run = c, 0
+			}
+			run++
+			hx.AdvanceTo(hx.NowNs() + step)
+		}
+		flush()
+		q := s.quiesce()
+		s.prevState = s.state()
+		return "burst " + sb.String() + " " + s.prevState + q
 	case f[0] == "finish" && len(f) >= 3:
 		fl, ok := s.flights[f[1]]
 		if !ok {
